@@ -1,4 +1,4 @@
-FIX_COMMITS = []
+FIX_COMMITS = ["8e05df9"]
 NOT_APPLICABLE = {}
 SYMX = "bounded symbolic execution of the real source on z3 (symx): every feasible path class explored, assertions discharged as unsat queries, counterexamples replayed concretely"
 CHECKS = {
@@ -15,6 +15,11 @@ CHECKS = {
     "C19": {
         "text": "Real ControllerApplication._watchdog_feed with the feed counter, the start value of the consecutive-failure count and the protocol version as solver terms (so the modulo-period and threshold tests fork on them) and every feed's outcome/strike point a solver-decided choice: for every path the raise-iff-exceeded rule, the clearing on success and the keep-alive command (nop / counter read / periodic read-and-clear) are checked against a reference count. Because the start state is symbolic over all reachable counts, L feeds cover longer histories inductively.",
         "note": "Trusted: z3, symx proxies, the command-level EZSP stub; application object allocated without zigpy's constructor. Bounds: L=4 (quick) / 6 (thorough) feeds from every start state.",
+        "technique": SYMX,
+    },
+    "C15": {
+        "text": "Real Multicast (start-up scan, subscribe, unsubscribe) against a command-level model of the NCP multicast table; table size, initial table (each group at most once), operation sequence and the answer to every table write (success / rejection / timeout not applied / timeout applied) are solver-decided choices explored exhaustively within the bounds. After every step: mirror relation host-view = NCP entries with non-zero endpoint, index partition (free xor used by one group), unchanged free count after any failed call, no write on re-subscribe, failure when full; closing probe through subscribe() only.",
+        "note": "Trusted: z3, the NCP table model (a rejected or lost write changes nothing; an applied-but-timed-out write suspends the mirror demand until the next start-up scan). Host view read from the anchored _multicast/_available state. Bounds: sizes 0..2, 2 groups, 3 operations (quick); sizes 0..4, 3 groups, 3-4 operations (thorough).",
         "technique": SYMX,
     },
 }
